@@ -291,12 +291,17 @@ def r15_5(ctx, rc):
                     (func.qualname, a.left.id) in names:
                 return (isinstance(a.ops[0], ast.Is) and pol == 'T') or (
                     isinstance(a.ops[0], ast.IsNot) and pol == 'F')
-            if isinstance(a, ast.Call) and pol == 'F' and any(
+            if isinstance(a, ast.Call) and pol == 'F' and a.args and any(
                     g in ('os.path.isfile', 'os.path.exists')
                     for g in ctx.prog.resolve_call(a, func)
-                    if isinstance(g, str)) and (
-                        func in R.public_static_methods):
-                return True
+                    if isinstance(g, str)):
+                # "there is no cache file": the tested path is the
+                # normalised cache file name
+                norm = R.builder + '._sanitize_filename'
+                org = ctx.H.origins(a.args[0], func, cn,
+                                    stop=lambda n: n == norm)
+                return bool(org) and all(
+                    o[0] == 'call' and o[1] == norm for o in org)
             return False
         seen = sg.reach([sg.entry], avoid=lambda x: x.id in cmp_ids,
                         edge_ok=lambda a, b, lab: not allowed_skip(lab))
